@@ -12,6 +12,8 @@ variant = {
  "1": "",
  "2": "Prefer a change that needs a MULTI-STEP history or a particular crash/fault point or interleaving to manifest, or two cooperating sites that each look fine alone. ",
  "3": "Prefer a change in glue code around the core mechanism (parsing, option handling, conversions, caching, boundary conditions at unusual sizes) rather than in its most obvious line. ",
+ "4": "Prefer a change made of TWO cooperating sites that each look fine alone (e.g. an invariant established in one function and relied on in another; a field updated in one path but not in its sibling path; an optimisation/cache/buffer reuse that is only wrong after a particular earlier call), or an error/rollback path that leaves partial state. Do not touch the single most obvious comparison or threshold. ",
+ "5": "Prefer a change that only matters under concurrency or re-entrancy (a lock scope narrowed, a check moved outside a critical section, a shared buffer, an early return that skips an unlock/notify, ordering of two effects) if the property quantifies over schedules or crash points; otherwise prefer a state-dependent slip that needs an unusual but legal history of API calls (reset/reuse of an object, calls in an unexpected but allowed order, zero/empty/maximum-size values). ",
 }.get(k, "")
 print(f"""You are helping to evaluate how well a verification tool detects subtle regressions in a Go code base. You get one semantic property of the system and a scratch copy of the repository; your job is to write a realistic code change that BREAKS the property while everything still compiles and the existing tests still pass.
 
